@@ -225,10 +225,12 @@ pub fn parse_block(stem: &str, bytes: &[u8]) -> Option<Block> {
     Some(Block { name: stem.to_string(), idx, parents, packs, changes, info })
 }
 
-/// String-aware scan of a pack: SHA-256 of the raw bytes of every top-level array element.
+/// String-aware scan of a pack: SHA-256 of the raw bytes of every outermost JSON object (an object
+/// that is not nested inside another object), whatever surrounds it (array brackets, commas,
+/// whitespace). For the current format (one JSON array of objects) these are the array elements.
 pub fn scan_pack(bytes: &[u8]) -> Vec<(String, usize, usize)> {
     let mut out = vec![];
-    let mut depth = 0i64;
+    let mut obj_depth = 0i64;
     let mut in_str = false;
     let mut esc = false;
     let mut start = 0usize;
@@ -245,17 +247,20 @@ pub fn scan_pack(bytes: &[u8]) -> Vec<(String, usize, usize)> {
         }
         match c {
             b'"' => in_str = true,
-            b'{' | b'[' => {
-                depth += 1;
-                if depth == 2 && c == b'{' {
+            b'{' => {
+                if obj_depth == 0 {
                     start = i;
                 }
+                obj_depth += 1;
             }
-            b'}' | b']' => {
-                if depth == 2 && c == b'}' {
+            b'}' => {
+                obj_depth -= 1;
+                if obj_depth == 0 {
                     out.push((sha_hex(&bytes[start..=i]), start, i + 1 - start));
                 }
-                depth -= 1;
+                if obj_depth < 0 {
+                    obj_depth = 0;
+                }
             }
             _ => {}
         }
